@@ -179,6 +179,11 @@ pub fn run_case(c: &MCase) -> Vec<Found> {
                 }
                 v
             };
+            // MIN/MAX keep the first value seen when two values are not comparable (Bool; Int64 against
+            // Float64): only a split that keeps the input order has a well-defined sequential counterpart there
+            if !contiguous && (c.alphabet == "bool" || c.alphabet == "mixednum") {
+                return out;
+            }
             for (name, m) in [("left-fold", &left), ("right-fold", &right)] {
                 let (s, g) = (fin(&seq, contiguous), fin(m, contiguous));
                 if canon_row(&s) != canon_row(&g) {
